@@ -28,14 +28,17 @@ ALLV = "fresh,reloaded,second,reloaded2,multi,multi,sharedctx,json"
 # property -> (batches, antecedent marks, what makes a trace non-trivial)
 # batch = (profile, cases at quick tier, extra harness arguments)
 PLAN = {
-    "C01": ([("pattern", 2, []), ("patternx", 1, []), ("core", 500, ["-variants", ALLV]), ("memo", 300, ["-variants", ALLV]), ("control", 120, [])],
+    "C01": ([("pattern", 2, []), ("patternx", 1, []), ("patterne", 1, []), ("core", 500, ["-variants", ALLV]), ("memo", 300, ["-variants", ALLV]), ("control", 120, []),
+             ("fault", 200, ["-calls", "3", "-flagp", "0.3"])],
             ["C01"], "a rule that was a candidate in the previous cycle is evaluated again after an action made its condition false"),
-    "C02": ([("pattern", 2, []), ("patternx", 1, []), ("patterne", 1, []), ("core", 500, ["-variants", ALLV]), ("memo", 300, ["-variants", ALLV]), ("salience", 120, [])],
+    "C02": ([("pattern", 2, []), ("patternx", 1, []), ("patterne", 1, []), ("core", 500, ["-variants", ALLV]), ("memo", 300, ["-variants", ALLV]), ("salience", 120, []),
+             ("fault", 200, ["-calls", "3", "-flagp", "0.3"]), ("control", 150, ["-calls", "3"])],
             ["C02"], "a rule whose condition was false in the previous cycle is evaluated again after an action made it true"),
     "C03": ([("salience", 600, ["-reps", "3", "-variants", "fresh,json,multi"]), ("core", 150, []), ("control", 100, []), ("fault", 250, ["-flagp", "0.2", "-reps", "3"])],
             ["C03"], "a rule fired in a cycle whose recomputed conflict set held candidates of different salience"),
     "C06": ([("budget", 500, ["-listeners", "3", "-maxcycle", "5", "-shadow", "0.5"]), ("control", 150, ["-listeners", "2", "-shadow", "0.5"]),
-             ("fault", 100, ["-flagp", "0.5", "-shadow", "0.5"]), ("memo", 200, ["-nest", "0.8", "-listeners", "2", "-maxcycle", "6"]), ("budget", 12, ["-cancel", "-maxcycle", "4"])],
+             ("fault", 100, ["-flagp", "0.5", "-shadow", "0.5"]), ("memo", 200, ["-nest", "0.8", "-listeners", "2", "-maxcycle", "6"]),
+             ("control", 200, ["-calls", "3", "-listeners", "2", "-variants", "fresh,second,json"]), ("budget", 12, ["-cancel", "-maxcycle", "4"])],
             ["C06", "C06q"], "a run that exhausted its cycle budget, or reached quiescence after at least one firing"),
     "C08": ([("reuse", 1, []), ("control", 300, ["-calls", "3", "-mode", "mixed", "-variants", "fresh,reloaded"]),
              ("fault", 200, ["-calls", "3", "-mode", "mixed", "-flagp", "0.3"]),
@@ -51,7 +54,8 @@ PLAN = {
             ["C11"], "a fetch whose rule set holds both matching and non-matching (or removed, or failing) rules"),
     "C13": ([("memo13", 800, ["-variants", ALLV]), ("memo13", 200, ["-calls", "2", "-mode", "mixed"])],
             ["C13"], "a later cycle started while the working memory held the value of the counted method atom shared by the rules (so it is consulted again)"),
-    "C14": ([("patterne", 2, []), ("fault", 800, ["-flagp", "0.5", "-variants", ALLV]), ("fault", 200, ["-mode", "mixed", "-flagp", "0.5"])],
+    "C14": ([("patterne", 2, []), ("fault", 800, ["-flagp", "0.5", "-variants", ALLV]), ("fault", 200, ["-mode", "mixed", "-flagp", "0.5"]),
+             ("fault", 300, ["-calls", "3", "-flagp", "0.2", "-variants", "fresh,second,json"])],
             ["C14", "C14a"], "a condition evaluation or an action failed (nil pointer, index or key out of range, % 0, panicking method)"),
     "C15": ([("core", 25, ["-cancel", "-maxcycle", "4"]), ("memo", 20, ["-cancel", "-maxcycle", "4"]),
              ("control", 20, ["-cancel", "-maxcycle", "4"]), ("fault", 10, ["-cancel", "-maxcycle", "3", "-flagp", "0.5"])],
